@@ -143,6 +143,35 @@ type lockWatch struct {
 }
 
 func init() {
+	// write-set monitor: vxFrameBegin() opens a window; vxFrameWrites() closes it and returns how many
+	// stores inside the window went to objects that existed before it (and were not handed out by a
+	// sync.Pool inside it, nor regrown copies of such objects)
+	vxAPI["vxFrameBegin"] = func(e *Exec, fn *ssa.Function, a []Value) Value {
+		e.epoch++
+		e.mon = &monitor{epoch: e.epoch, allowed: map[*Obj]bool{}, allowedMaps: map[*MapObj]bool{}}
+		return nil
+	}
+	vxAPI["vxFrameAllow"] = func(e *Exec, fn *ssa.Function, a []Value) Value {
+		if e.mon != nil {
+			if iv, ok := a[0].(Iface); ok {
+				if p, ok := iv.V.(Ptr); ok && p.Obj != nil {
+					e.mon.allowed[p.Obj] = true
+				}
+			}
+		}
+		return nil
+	}
+	vxAPI["vxFrameWrites"] = func(e *Exec, fn *ssa.Function, a []Value) Value {
+		if e.mon == nil {
+			return mkInt(64, 0)
+		}
+		n := len(e.mon.writes)
+		for _, w := range e.mon.writes {
+			e.tags = append(e.tags, "write to pre-existing "+w)
+		}
+		e.mon = nil
+		return mkInt(64, uint64(n))
+	}
 	// vxLocksetWatch(obj any, mu any): from now on every plain access to a field of *obj must happen
 	// while *mu is held in a sufficient mode (write: Lock; read: Lock or RLock)
 	vxAPI["vxLocksetWatch"] = func(e *Exec, fn *ssa.Function, a []Value) Value {
